@@ -3,6 +3,7 @@
 #include "units.inc"
 #include <cerrno>
 #include "engine.hpp"
+#include <cstring>
 
 using namespace vf;
 using namespace PhQ;
@@ -11,6 +12,7 @@ struct EnumType {
   std::string name;
   std::vector<std::pair<std::string, int>> keys;                 // the live spelling table
   std::function<int(const std::string&)> parse;                  // ParseEnumeration<E>: value or -1
+  std::function<int(const std::string&, const std::string&)> parse_reusing_buffer;   // parse `first`, then `s`, both placed in the same character buffer
 };
 static std::vector<EnumType> g_types;
 template <class E> static void add_type(const char* name) {
@@ -18,6 +20,13 @@ template <class E> static void add_type(const char* name) {
   for (auto& kv : Internal::Spellings<E>) t.keys.emplace_back(std::string(kv.first), (int)kv.second);
   std::sort(t.keys.begin(), t.keys.end());
   t.parse = [](const std::string& s) { const std::optional<E> r = ParseEnumeration<E>(s); return r.has_value() ? (int)r.value() : -1; };
+  t.parse_reusing_buffer = [](const std::string& first, const std::string& s) {
+    // a caller that reads spellings into one line buffer: the second string_view has the address (and often the length) of the first
+    static char buf[1 << 16];
+    if (first.size() > sizeof buf || s.size() > sizeof buf) return -3;
+    std::memcpy(buf, first.data(), first.size()); (void)ParseEnumeration<E>(std::string_view(buf, first.size()));
+    std::memcpy(buf, s.data(), s.size()); const std::optional<E> r = ParseEnumeration<E>(std::string_view(buf, s.size()));
+    return r.has_value() ? (int)r.value() : -1; };
   g_types.push_back(t);
 }
 static void load_types() {
@@ -37,6 +46,17 @@ static Verdict c08_parse(const Case& c) {
   if (got != want) {
     if (want < 0) return Verdict::fail(fmt("ParseEnumeration<%s>(\"%s\") = %d, but the string is not an accepted spelling", T.name.c_str(), show(s).c_str(), got));
     return Verdict::fail(fmt("ParseEnumeration<%s>(\"%s\") = %d, the spelling table says %d", T.name.c_str(), show(s).c_str(), got, want));
+  }
+  // the same string parsed right after an accepted spelling of (if possible) the same length, through one reused buffer: a parser that remembers a view of
+  // its previous argument answers for the previous string
+  if (!T.keys.empty()) {
+    std::vector<size_t> same; for (size_t k = 0; k < T.keys.size(); k++) if (T.keys[k].first.size() == s.size() && T.keys[k].first != s) same.push_back(k);
+    const size_t h = std::hash<std::string>()(s);
+    const std::string& first = same.empty() ? T.keys[h % T.keys.size()].first : T.keys[same[h % same.size()]].first;
+    const int got2 = T.parse_reusing_buffer(first, s);
+    if (got2 != want && got2 != -3)
+      return Verdict::fail(fmt("ParseEnumeration<%s>(\"%s\") = %d when it is called right after ParseEnumeration(\"%s\") on the same character buffer; %s", T.name.c_str(), show(s).c_str(), got2, show(first).c_str(),
+                               want < 0 ? "the string is not an accepted spelling" : fmt("the spelling table says %d", want).c_str()));
   }
   Verdict V; V.cls = c.s.size() > 1 ? c.s[1] : "unlabelled"; V.cls += want >= 0 ? ";is-a-key" : ";not-a-key";
   V.nontrivial = want < 0 && c.s.size() > 1 && c.s[1].rfind("edit", 0) == 0;
